@@ -59,7 +59,7 @@ func loadPkg(dir string, includeTests bool) *pkg {
 		if bytes.Contains(src[:min(len(src), 400)], []byte("go:build verif")) {
 			continue
 		}
-		f, err := parser.ParseFile(fset, filepath.Join(dir, n), src, parser.ParseComments)
+		f, err := parser.ParseFile(fset, filepath.Join(dir, n), src, 0)
 		if err != nil {
 			fatal("parse %s: %v", n, err)
 		}
@@ -379,6 +379,9 @@ func matchWrite(st []string, x string, ptr bool, tsel string) (string, int) {
 		if st[0] == "b,err=appendAny("+tsel+",b,"+x+")" {
 			return "WrAny", 2
 		}
+		if m := regexp.MustCompile(`^b,err=(\w+)\(` + q(tsel) + `,b,` + q(x) + `\)$`).FindStringSubmatch(st[0]); m != nil && elemHelpers[m[1]] {
+			return "WrFunc", 2
+		}
 	}
 	return "WrBad", 0
 }
@@ -618,7 +621,7 @@ var expectCanon = map[string][]string{
 	"appendListHeader": {"{if*(*unsafe.Pointer)(v3)==nil{returnappend(v2,byte(v1.WT),0,0,0,0),0,nil}v4:=(*sliceHeader)(v3)v5:=uint32(v4.Len)returnappend(v2,byte(v1.WT),byte(v5>>24),byte(v5>>16),byte(v5>>8),byte(v5)),v5,v4.Data}"},
 	"appendMapHeader": {"{varv4uint32if*(*unsafe.Pointer)(v3)!=nil{v4=uint32(maplen(*(*unsafe.Pointer)(v3)))}returnappend(v2,byte(v1.K.WT),byte(v1.V.WT),byte(v4>>24),byte(v4>>16),byte(v4>>8),byte(v4)),v4}"},
 	"checkMapN": {"{ifv1==0{returnnil}returnerrors.New(\"mapsizechangedduringencoding\")}", "{ifv1!=0{returnerrors.New(\"mapsizechangedduringencoding\")}returnnil}"},
-	"appendMapBool": {"{ifv2{returnappend(v1,1)}returnappend(v1,0)}"},
+	"appendMapBool": {"{ifv2{returnappend(v1,1)}returnappend(v1,0)}", "{varv3byteifv2{v3=1}returnappend(v1,v3)}"},
 	"appendUint16": {"{returnappend(v1,byte(v2>>8),byte(v2),)}"},
 	"appendUint32": {"{returnappend(v1,byte(v2>>24),byte(v2>>16),byte(v2>>8),byte(v2),)}"},
 	"appendUint64": {"{returnappend(v1,byte(v2>>56),byte(v2>>48),byte(v2>>40),byte(v2>>32),byte(v2>>24),byte(v2>>16),byte(v2>>8),byte(v2),)}"},
@@ -688,8 +691,67 @@ func simpleSwitch(p *pkg, fn string) (map[int64]string, bool) {
 	return out, true
 }
 
+// delegate: a routine whose whole body is `return g(t, b, p)` with its own three parameters, in
+// order, is g
+func delegate(p *pkg, fd *ast.FuncDecl) *ast.FuncDecl {
+	for hops := 0; hops < 8 && fd != nil && fd.Body != nil; hops++ {
+		if len(fd.Body.List) != 1 || fd.Type.Params == nil {
+			return fd
+		}
+		var ps []string
+		for _, f := range fd.Type.Params.List {
+			for _, n := range f.Names {
+				ps = append(ps, n.Name)
+			}
+		}
+		rs, ok := fd.Body.List[0].(*ast.ReturnStmt)
+		if !ok || len(rs.Results) != 1 || len(ps) != 3 {
+			return fd
+		}
+		ce, ok := rs.Results[0].(*ast.CallExpr)
+		if !ok || len(ce.Args) != 3 {
+			return fd
+		}
+		g, ok := ce.Fun.(*ast.Ident)
+		if !ok {
+			return fd
+		}
+		for i, a := range ce.Args {
+			id, ok := a.(*ast.Ident)
+			if !ok || id.Name != ps[i] {
+				return fd
+			}
+		}
+		next := p.funcs[g.Name]
+		if next == nil || src(next.Type) != src(fd.Type) {
+			return fd
+		}
+		fd = next
+	}
+	return fd
+}
+
+// elemHelpers: package functions that are the two-armed element call
+// `if t.IsPointer { return t.AppendFunc(t, b, *(*unsafe.Pointer)(p)) }; return t.AppendFunc(t, b, p)`
+var elemHelpers = map[string]bool{}
+
+func findElemHelpers(p *pkg) {
+	elemHelpers = map[string]bool{}
+	for n, fd := range p.funcs {
+		if fd == nil || fd.Body == nil || fd.Recv != nil || src(fd.Type) != "func(t*tType,b[]byte,vpunsafe.Pointer)([]byte,error)" && src(fd.Type) != "func(t*tType,b[]byte,punsafe.Pointer)([]byte,error)" {
+			continue
+		}
+		c := canonBody(p, fd)
+		if c == "{ifv1.IsPointer{returnv1.AppendFunc(v1,v2,*(*unsafe.Pointer)(v3))}returnv1.AppendFunc(v1,v2,v3)}" ||
+			c == "{ifv1.IsPointer{v3=*(*unsafe.Pointer)(v3)}returnv1.AppendFunc(v1,v2,v3)}" {
+			elemHelpers[n] = true
+		}
+	}
+}
+
 func genTables(r *pkg) string {
 	var b strings.Builder
+	findElemHelpers(r)
 	b.WriteString(header)
 	b.WriteString("From Coq Require Import List NArith.\nFrom Frugal Require Import Routines.\nImport ListNotations.\nOpen Scope N_scope.\n\n")
 
@@ -706,8 +768,50 @@ func genTables(r *pkg) string {
 	}
 	sort.Strings(fnames)
 	regOK := true
-	for _, n := range fnames {
-		ast.Inspect(r.funcs[n].Body, func(x ast.Node) bool {
+	// a registration inside `for _, k := range [...]ttype{A, B, ...}` (constant elements) reads the
+	// same as the unrolled sequence: the body is visited once per element with k bound
+	evalEnv := func(e ast.Expr, env map[string]int64) (int64, bool) {
+		if id, ok := e.(*ast.Ident); ok {
+			if v, ok := env[id.Name]; ok {
+				return v, true
+			}
+		}
+		return r.eval(e)
+	}
+	var visit func(n ast.Node, env map[string]int64)
+	visit = func(n ast.Node, env map[string]int64) {
+		ast.Inspect(n, func(x ast.Node) bool {
+			if rs, ok := x.(*ast.RangeStmt); ok && rs.Tok == token.DEFINE && rs.Value != nil {
+				cl, okc := rs.X.(*ast.CompositeLit)
+				vid, okv := rs.Value.(*ast.Ident)
+				kid, okk := rs.Key.(*ast.Ident)
+				if okc && okv && okk && (kid.Name == "_" || kid.Name != vid.Name) {
+					var vals []int64
+					all := true
+					for _, el := range cl.Elts {
+						v, ok := r.eval(el)
+						if !ok {
+							all = false
+							break
+						}
+						vals = append(vals, v)
+					}
+					if all {
+						for i, v := range vals {
+							env2 := map[string]int64{}
+							for k, w := range env {
+								env2[k] = w
+							}
+							env2[vid.Name] = v
+							if kid.Name != "_" {
+								env2[kid.Name] = int64(i)
+							}
+							visit(rs.Body, env2)
+						}
+						return false
+					}
+				}
+			}
 			ce, ok := x.(*ast.CallExpr)
 			if !ok {
 				return true
@@ -718,8 +822,8 @@ func genTables(r *pkg) string {
 			}
 			switch id.Name {
 			case "registerMapAppendFunc":
-				k, ok1 := r.eval(ce.Args[0])
-				v, ok2 := r.eval(ce.Args[1])
+				k, ok1 := evalEnv(ce.Args[0], env)
+				v, ok2 := evalEnv(ce.Args[1], env)
 				f, ok3 := ce.Args[2].(*ast.Ident)
 				if !ok1 || !ok2 || !ok3 {
 					regOK = false
@@ -727,7 +831,7 @@ func genTables(r *pkg) string {
 				}
 				mrows = append(mrows, mrow{k, v, f.Name})
 			case "registerListAppendFunc":
-				k, ok1 := r.eval(ce.Args[0])
+				k, ok1 := evalEnv(ce.Args[0], env)
 				f, ok3 := ce.Args[1].(*ast.Ident)
 				if !ok1 || !ok3 {
 					regOK = false
@@ -737,6 +841,9 @@ func genTables(r *pkg) string {
 			}
 			return true
 		})
+	}
+	for _, n := range fnames {
+		visit(r.funcs[n].Body, map[string]int64{})
 	}
 	// later registrations overwrite earlier ones (Go map assignment): keep the last
 	mlast := map[[2]int64]string{}
@@ -764,10 +871,11 @@ func genTables(r *pkg) string {
 		if id, ok := mids[name]; ok {
 			return id
 		}
-		fd := r.funcs[name]
+		fd := delegate(r, r.funcs[name])
 		rt := routine{name: name, iter: "ItBad", key: "WrBad", val: "WrBad"}
 		if fd != nil {
 			rt = classifyMap(fd)
+			rt.name = name
 		}
 		mids[name] = len(mlist)
 		mlist = append(mlist, rt)
@@ -829,10 +937,11 @@ func genTables(r *pkg) string {
 		if id, ok := lids[name]; ok {
 			return id
 		}
-		fd := r.funcs[name]
+		fd := delegate(r, r.funcs[name])
 		rt := routine{name: name, key: "WrBad"}
 		if fd != nil {
 			rt = classifyList(fd)
+			rt.name = name
 		}
 		lids[name] = len(llist)
 		llist = append(llist, rt)
